@@ -543,8 +543,10 @@ func gen(c *lib.Ctx, rng *rand.Rand) []c08case {
 		{"timesubsstpp_en", "testpic_2s/timestpp-en/45.mp4", "100000", "404", "extension"},
 		{"timesubsstpp_en/segtimeline_1", "testpic_2s/timestpp-en/90000.m4s", "100000", "", ""},
 		{"timesubsstpp_en/segtimeline_1", "testpic_2s/timestpp-en/90001.m4s", "100000", "404", "time is no segment start"},
-		{"ato_2/chunkdur_0.5", "testpic_2s/V300/45.m4s", "100000", "4xx", "chunk duration 0"},
-		{"chunkdur_1/ato_-2147481.648", "testpic_2s/V300/45.m4s", "100000", "4xx", "chunk duration wraps to 0 in uint32"},
+		{"ato_2/chunkdur_0.5", "testpic_2s/V300/45.m4s", "100000", "", ""}, // chunk duration 0: one chunk per sample since /repo 1ce6842
+		{"chunkdur_1/ato_-2147481.648", "testpic_2s/V300/45.m4s", "100000", "", ""},
+		{"chunkdur_1/ato_-1", "testpic_2s/V300/45.m4s", "100000", "", ""},
+		{"chunkdur_1/ato_-3600", "testpic_2s/V300/45.m4s", "100000", "", ""},
 		{"ato_1.5/chunkdur_0.5", "testpic_2s/V300/45.m4s", "100000", "", ""},
 		{"ato_1/chunkdur_0.5", "testpic_2s/A48/45.m4s", "100000", "", ""},
 		{"ato_3/chunkdur_0.5", "testpic_2s/V300/45.m4s", "100000", "", ""},
@@ -555,8 +557,8 @@ func gen(c *lib.Ctx, rng *rand.Rand) []c08case {
 		{"chunkdur_1", "testpic_2s/thumbs/45.jpg", "100000", "", ""},
 		{"snr_10", "testpic_2s/A48/5.m4s", "100000", "404", "number below startNumber"},
 		{"snr_10", "testpic_2s/V300/5.m4s", "100000", "404", "number below startNumber"},
-		{"snr_4294967297", "testpic_2s/V300/2.m4s", "100000", "404", "number below startNumber"},
-		{"snr_4294967297", "testpic_2s/V300/1.m4s", "100000", "404", "number below startNumber"},
+		{"snr_4294967297", "testpic_2s/V300/2.m4s", "100000", "4xx", "start number beyond 32 bits"},
+		{"snr_4294967297", "testpic_2s/V300/1.m4s", "100000", "4xx", "start number beyond 32 bits"},
 		{"snr_-1", "testpic_2s/V300/45.m4s", "100000", "", ""},
 		{"snr_-5", "testpic_2s/V300/4294967295.m4s", "100000", "", ""},
 		{"statuscode_[{cycle:8,rsq:1,code:404}]/start_30", "testpic_2s/V300/45.m4s", "100000", "", ""},
